@@ -4,6 +4,7 @@ import PV.Proofs.EqHashStock
 import PV.Proofs.Pickle
 import PV.Properties.C17
 import PV.Generated.Classes
+import PV.Generated.PostInit
 /-
   C01 — expression nodes: structural equality, consistent hashing, immutability.
 
@@ -806,5 +807,23 @@ theorem hash_cache_inv_optimized (src : C01FrozenSource) (debug : Bool) (tbl : C
       (run1D src debug tbl P w ops).2.map Out1.core
         = (run1Ref (tbl.inMode src debug) w.erased ops).2 :=
   hash_cache_inv (tbl.inMode src debug) hP w hc hw ops hno
+
+/-! ### 9. field normalisation at construction (`__post_init__`) -/
+
+/-- **post_init_current.**  The `__post_init__` methods of the node classes of the working tree,
+re-read statement by statement on every run (`extract/postinit.py`; any other statement shape is an
+extraction error), are exactly the three normalisers the harness and the class model assume:
+`CallWithKwargs.kw_parameters` is replaced by an `immutabledict` of itself exactly when HASHING it
+raises (so the stored mapping is always hashable and the node's hash never raises), a `Comparison`
+operator given by name is translated through `name_to_operator` and anything unknown is refused with
+`RuntimeError`, and a `CommonSubexpression` scope of `None` becomes `cse_scope.EVALUATION`.  No other
+node class rewrites a field after construction, so for every other class the fields compared by the
+generated `__eq__` are the constructor arguments themselves. -/
+theorem post_init_current :
+    Generated.postInit =
+      [ ("CallWithKwargs", "normaliseIfHashRaises", ["kw_parameters", "immutabledict.immutabledict"]),
+        ("CommonSubexpression", "defaultIfNone", ["scope", "cse_scope.EVALUATION"]),
+        ("Comparison", "translateOrRaise",
+          ["operator", "operator_to_name", "name_to_operator", "RuntimeError"]) ] := by decide
 
 end PV.C01
